@@ -13,12 +13,19 @@ MANIFEST = dict(
          "every transition of the complete sequential graphs (1 account x nonces 1..4, 2 accounts x nonces 1..2, two variants per nonce, two balances) "
          "is replayed on the real MemPool from a path-built source state, on the package's mock-state configuration and on a pool reading a real "
          "ChainStateDB through real block notifications (full and dirty-account scans), comparing lists, ready prefixes, base states, cache, counters and "
-         "everything get/exist/Size/getUnconfirmed/listHash report; concurrent runs (submitters, actor, evictor, readers) are logged with a global "
+         "everything get/exist/Size/getUnconfirmed/listHash report; deterministic concurrency: lock-gated pair schedules derived from the same TLC "
+         "graphs — for ordered pairs of calls at a source state (put x block arrival in both orders with and without an existing list, put x put, "
+         "put x get, block x get, eviction x put/get/block, put x removeTx/getUnconfirmed) the in-package harness holds the pool's own lock until both "
+         "goroutines are queued at it (read from the lock's waiter counts, not from timing), releases it, and compares the pool and both return values "
+         "with the two sequential outcomes of the graph (second step of a put = the model's PutLocked in that state), predicates at the quiescent point; "
+         "randomized concurrent runs (submitters, actor, evictor, readers) are logged with a global "
          "sequence and validated by TLC against MempoolTrace.tla (linearizability search), predicates evaluated at every quiescent point; "
          "thorough tier under the race detector.",
     note="in-memory state db; zero fee; accounts/amounts abstracted to 2 balances x 2 amounts; the concurrent thread structure follows the node "
          "(getUnconfirmed only from the actor goroutine, block notifications from one goroutine)",
-    technique="TLA+/TLC exhaustive model; replay of every TLC transition into the real pool; TLC trace validation (linearizability) of concurrent runs; go -race")
+    technique="TLA+/TLC exhaustive model; replay of every TLC transition into the real pool; model-derived lock-gated pair schedules (deterministic "
+              "two-call interleavings checked against both sequential outcomes of the TLC graph); TLC trace validation (linearizability) of "
+              "randomized concurrent runs; go -race")
 SPEC_DIR = os.path.join(vlib.SPEC, "mempool")
 SEP = " ## "
 
@@ -58,16 +65,17 @@ def parse_gen(out):
             tidx[txt] = i
         return i
 
+    forced = []     # "TF|" lines: PutForced steps (locked part of a put validated earlier), printed but not followed by TLC
     for line in out.splitlines():
-        if not line.startswith('"TR|'):
+        if not line.startswith(('"TR|', '"TF|')):
             continue
         body = line[4:-1].replace('\\"', '"').replace("\\\\", "\\")
         s, a, d = body.split(SEP)
         act = cache.get(a)
         if act is None:
             act = cache[a] = conv_act(vlib.parse_value(a))
-        trans.append({"s": state_of(s), "d": state_of(d), "a": act})
-    return states, trans
+        (trans if line[2] == "R" else forced).append({"s": state_of(s), "d": state_of(d), "a": act})
+    return states, trans, forced
 
 
 def replayable(backend, a):
@@ -99,11 +107,11 @@ def bfs_parents(nstates, trans, init, backend):
 
 
 def build_graph(name, gen, accounts, backends, rng, nwalks, wlen):
-    states, trans = parse_gen(gen.out)
+    states, trans, forced = parse_gen(gen.out)
     if not trans:
         raise vlib.Infra("no transitions generated for " + name)
-    if len(trans) != gen.generated - 1:
-        raise vlib.Infra("%s: %d transition lines for %d generated states" % (name, len(trans), gen.generated))
+    if len(trans) + len(forced) != gen.generated - 1:
+        raise vlib.Infra("%s: %d + %d transition lines for %d generated states" % (name, len(trans), len(forced), gen.generated))
     inits = [i for i, s in enumerate(states) if not s["pool"] and not s["cache"] and s["notified"]
              and all(v == {"nonce": 0, "bal": 2} for v in s["chain"].values())]
     if len(inits) != 1:
@@ -118,7 +126,196 @@ def build_graph(name, gen, accounts, backends, rng, nwalks, wlen):
         adj = {s: [(i, trans[i]["d"]) for i in lst] for s, lst in out.items()}
         g["walks"][b] = vlib.random_walks(adj, init, nwalks, wlen, rng)
     g["trans"] = trans
-    return g, len(trans)
+    return g, len(trans), forced
+
+
+# --------------------------------------------------------------------------- lock-gated pair schedules
+#
+# For an ordered pair (op1, op2) of calls enabled in a source state the harness holds the pool lock, starts op1, waits
+# until its goroutine is queued at the lock (or has returned), starts op2 likewise, releases the lock.  Both calls have
+# then done their lock-free parts in the source state (a put: cache lookup + validation, PutCache/PutValidate of the
+# model) and their critical sections run one after the other, in one of the two orders.  The legal outcomes are read
+# from the TLC graph: src --op1--> x1 --op2--> x12 and src --op2--> x2 --op1--> x21, where the second step of a put is
+# the model's PutLocked in that state (the sequential Put transition where a put started there would reach the lock as
+# well, the printed PutForced step otherwise) and a put that the model turns away before the lock in src changes nothing.
+# Nothing of the model's effects is recomputed here: only which transition of the graph a call corresponds to in a
+# given state (block: named accounts -> dirty set; eviction: which lists are old).
+
+GET = -1     # get() is no action of Mempool.tla (it changes nothing); its legal results are the ready runs of a graph state
+READERS = ("Get", "Unconfirmed")
+
+
+def txkey(tx):
+    return (tx["acc"], tx["nonce"], tx["amt"])
+
+
+def akey(a):
+    """identity of a call (the action without its result)"""
+    tx, st = a.get("tx"), a.get("chg_st") or a.get("st")
+    return (a["name"], txkey(tx) if tx else None, a.get("acc"), a.get("chg_acc"), (st["nonce"], st["bal"]) if st else None,
+            a.get("full"), tuple(a.get("dirty") or ()), tuple(a.get("accs") or ()))
+
+
+class PairGen:
+    def __init__(self, g, forced):
+        self.g, self.states, self.trans = g, g["states"], g["trans"]
+        self.seq, self.forced = {}, {}
+        for ti, t in enumerate(self.trans):
+            self.seq.setdefault(t["s"], {})[akey(t["a"])] = ti
+        for f in forced:
+            self.forced.setdefault(f["s"], {})[txkey(f["a"]["tx"])] = (f["d"], f["a"]["res"])
+        self.dropped = 0
+
+    def act(self, op):
+        return {"name": "Get"} if op == GET else self.trans[op]["a"]
+
+    def step(self, x, a):
+        ti = self.seq.get(x, {}).get(akey(a))
+        return None if ti is None else self.trans[ti]
+
+    def locked(self, src, a, x, touched):
+        """the critical section of call a (started in src) taken in state x: (x', result class, state the report shows) or None"""
+        n = a["name"]
+        if n == "Get":
+            return x, "", x
+        if n == "Put":
+            txk = txkey(a["tx"])
+            if txk in self.forced.get(src, {}):          # turned away before the lock (in cache / validation), in src
+                return x, "rej", -1
+            f = self.forced.get(x, {}).get(txk)
+            if f:
+                return f[0], f[1], -1
+            t = self.step(x, a)
+            return None if t is None else (t["d"], t["a"]["res"], -1)
+        if n == "Remove":
+            t = self.step(x, a)
+            return None if t is None else (t["d"], t["a"]["res"], -1)
+        if n == "Unconfirmed":
+            t = self.step(x, a)
+            return None if t is None else (t["d"], "", t["d"])
+        if n == "Block":
+            b = a
+            if not a["full"]:
+                # the real block names: the model's dirty accounts + the account whose nonce it advances (an account
+                # without a list is not in the model's dirty set, but the real block still names it)
+                named = set(a["dirty"])
+                if a.get("chg_acc") and a["chg_st"]["nonce"] > self.states[src]["chain"][a["chg_acc"]]["nonce"]:
+                    named.add(a["chg_acc"])
+                b = dict(a, dirty=sorted(named & set(self.states[x]["pool"])))
+            t = self.step(x, b)
+            return None if t is None else (t["d"], "", -1)
+        if n == "Evict":
+            # evictPeriod = 0 in the harness: every list is old unless the harness marked it young (those outside accs)
+            # and nothing touched it since; lists created or modified by the other call are old again
+            S, dom = set(a["accs"]), set(self.states[x]["pool"])
+            sx = dom if S == set(self.states[src]["pool"]) else (S | touched) & dom
+            if not sx:
+                return x, "", -1
+            t = self.step(x, {"name": "Evict", "accs": sorted(sx)})
+            return None if t is None else (t["d"], "", -1)
+        return None
+
+    @staticmethod
+    def touch(a, res):
+        return {a["tx"]["acc"]} if a["name"] == "Put" and res == "ok" else set()
+
+    def outcomes(self, src, op1, op2):
+        a1, a2 = self.act(op1), self.act(op2)
+        out = []
+        for first in (1, 2):
+            fa, sa = (a1, a2) if first == 1 else (a2, a1)
+            r = self.locked(src, fa, src, set())
+            if r is None:
+                return None
+            q = self.locked(src, sa, r[0], self.touch(fa, r[1]))
+            if q is None:
+                return None
+            one, two = (r, q) if first == 1 else (q, r)
+            out.append([q[0], one[1], one[2], two[1], two[2]])
+        return out
+
+    def pairs_at(self, src, backend, early=False):
+        """the ordered pairs exercised in src: put x {block, put, get, evict, removeTx / getUnconfirmed of the same account}
+        in both orders, block x get, evict x get, block x evict-everything in both orders.  early: also the pairs with a
+        put that the cache lookup / validation turns away in src (it returns before the lock: nothing overlaps)"""
+        ops = {}
+        for ti in self.seq.get(src, {}).values():
+            a = self.trans[ti]["a"]
+            if a["name"] == "Block" and backend == "test" and (not a["full"] or a.get("chg_acc")):
+                continue        # mock state: the state change is not part of the notification (SetChain is a path step)
+            if a["name"] == "SetChain":
+                continue
+            ops.setdefault(a["name"], []).append(ti)
+        for l in ops.values():
+            l.sort()
+        puts, blocks, evicts = ops.get("Put", []), ops.get("Block", []), ops.get("Evict", [])
+        dom = sorted(self.states[src]["pool"])
+        evall = [ti for ti in evicts if self.trans[ti]["a"]["accs"] == dom]
+        cand = []
+        if not early:
+            puts = [p for p in puts if txkey(self.trans[p]["a"]["tx"]) not in self.forced.get(src, {})]
+        for p in puts:
+            acc = self.trans[p]["a"]["tx"]["acc"]
+            same = [ti for ti in ops.get("Remove", []) if self.trans[ti]["a"]["tx"]["acc"] == acc] + \
+                   [ti for ti in ops.get("Unconfirmed", []) if self.trans[ti]["a"]["acc"] == acc]
+            for x in blocks + evicts + same + [GET]:
+                cand += [(p, x), (x, p)]
+            cand += [(p, q) for q in puts]
+        for b in blocks:
+            cand += [(b, GET), (GET, b)] + [(b, e) for e in evall] + [(e, b) for e in evall]
+        for e in evicts:
+            cand += [(e, GET), (GET, e)]
+        res = []
+        for o1, o2 in cand:
+            out = self.outcomes(src, o1, o2)
+            if out is None:
+                self.dropped += 1
+                continue
+            r1, r2 = self.act(o1)["name"] in READERS, self.act(o2)["name"] in READERS
+            # the gate: the write lock (two writers queue in order, a reader passes a queued writer), or the read lock
+            # when the writer is to go first (it announces itself, the reader queues behind it)
+            gate = "R" if (r2 and not r1) else "W"
+            res.append({"b": backend, "s": src, "o1": o1, "o2": o2, "gate": gate, "out": out})
+        return res
+
+
+def bfs_order(g, backend):
+    """states reachable on this back end, nearest first"""
+    par = g["parent"][backend]
+    depth = {g["init"]: 0}
+
+    def d(s):
+        chain = []
+        while s not in depth:
+            chain.append(s)
+            s = g["trans"][par[s]]["s"]
+        base = depth[s]
+        for k, x in enumerate(reversed(chain)):
+            depth[x] = base + k + 1
+        return depth[chain[0]] if chain else base
+    reach = [s for s in range(len(par)) if par[s] != -2]
+    return sorted(reach, key=lambda s: (d(s), s))
+
+
+def select_pairs(gi, g, forced, backends, rng, nfirst, nrand, cap, early):
+    """all pairs at the nfirst nearest source states + nrand seeded random ones, per back end (cap: bound per back end);
+    early: at the nearest states also the pairs in which a put returns before the lock"""
+    pg = PairGen(g, forced)
+    out, nsrc = [], 0
+    for b in backends:
+        order = bfs_order(g, b)
+        rest = order[nfirst:]
+        rng.shuffle(rest)
+        n0 = len(out)
+        for k, s in enumerate(order[:nfirst] + rest[:nrand]):
+            if len(out) - n0 >= cap:
+                break
+            ps = pg.pairs_at(s, b, early and k < nfirst)
+            for p in ps:
+                p["g"] = gi
+            out += ps
+            nsrc += 1
+    return out, nsrc, pg.dropped
 
 
 # --------------------------------------------------------------------------- concurrent traces
@@ -214,7 +411,9 @@ def run(c):
     quick = c.tier == "quick"
     c.rule = ("sequential: every transition (state, call, state') of the complete TLC graphs of Mempool.tla/SeqSpec is replayed on the real pool "
               "from a source state built by real calls along a shortest path, per back end (mock state / real state db); a case is one "
-              "(graph, back end, transition) or one step of a seeded walk; concurrent: a case is one round (3-6 goroutines) ending in a quiescent point")
+              "(graph, back end, transition) or one step of a seeded walk; pair schedules: a case is one ordered pair of calls at one source state of a "
+              "graph on one back end, both goroutines queued at the pool lock before it is released, outcome = one of the two sequential outcomes of the "
+              "graph; concurrent: a case is one round (3-6 goroutines) ending in a quiescent point")
     c.assumptions = ["in-memory state db (aergo-lib memorydb); zero fee as in the package's own tests",
                      "balances/amounts abstracted to {1,2}; one transaction type (plain transfer)",
                      "concurrent runs follow the node's thread structure: block notifications from one goroutine, getUnconfirmed only from it",
@@ -250,17 +449,39 @@ def run(c):
 
     # 2. graphs for the harness
     nwalks, wlen = (30, 40) if quick else (300, 80)
-    g1, n1 = build_graph("G1", results["g1"], ["a1"], backends, rng, nwalks, wlen)
-    g2, n2 = build_graph("G2q" if quick else "G2", results["g2"], ["a1", "a2"], backends, rng, nwalks, wlen)
+    g1, n1, f1 = build_graph("G1", results["g1"], ["a1"], backends, rng, nwalks, wlen)
+    g2, n2, f2 = build_graph("G2q" if quick else "G2", results["g2"], ["a1", "a2"], backends, rng, nwalks, wlen)
     if n1 < 10000 or n2 < 10000:
         raise vlib.Infra("too few transitions generated: %d / %d" % (n1, n2))
+    if not f1 or not f2:
+        raise vlib.Infra("no forced put steps (TF lines) generated: %d / %d" % (len(f1), len(f2)))
+    # 2b. lock-gated pair schedules: ordered pairs of calls at source states of the graphs, legal outcomes from the graphs
+    #     quick: the 40 nearest + 110 seeded random source states per graph and back end, thorough: G1 completely, G2 1000 states
+    prng = random.Random(c.seed * 7919 + 13)
+    pairs, pnotes = [], []
+    for gi, (g, f, sel) in enumerate([(g1, f1, (40, 110, 15000, False) if quick else (100, 10 ** 6, 150000, True)),
+                                      (g2, f2, (40, 110, 15000, False) if quick else (150, 850, 150000, True))]):
+        ps, nsrc, dropped = select_pairs(gi, g, f, backends, prng, *sel)
+        pairs += ps
+        pnotes.append("%s: %d pairs at %d (state, back end) sources" % (g["name"], len(ps), nsrc) + (", %d not expressible" % dropped if dropped else ""))
+    if len(pairs) < 10000:
+        raise vlib.Infra("too few pair schedules derived: %d" % len(pairs))
+    kinds = {}
+    for p in pairs:
+        gg = (g1, g2)[p["g"]]
+        k = "/".join("Get" if o == GET else gg["trans"][o]["a"]["name"] for o in (p["o1"], p["o2"]))
+        kinds[k] = kinds.get(k, 0) + 1
+    for need in ("Put/Block", "Block/Put", "Put/Put", "Put/Get", "Get/Put", "Block/Get", "Get/Block", "Put/Evict", "Evict/Put"):
+        if not kinds.get(need):
+            raise vlib.Infra("no pair schedule of kind %s derived" % need)
+    c.notes.append("pair schedules derived: " + "; ".join(pnotes) + "; by kind: " + ", ".join("%s %d" % kv for kv in sorted(kinds.items())))
     conc = dict(runs=32 if quick else 120, rounds=6 if quick else 8, accounts=["a1", "a2", "a3"], max_nonce=4,
                 putters=2, readers=1, ops_per=3, backends=backends)
     rawtrace = os.path.join(c.work, "mempool_trace_raw.ndjson")
 
-    def harness(tag, graphs, conc_params, race):
+    def harness(tag, graphs, conc_params, race, pair_cases=()):
         inpath = os.path.join(c.work, "mempool_in_%s.json" % tag)
-        json.dump({"graphs": graphs, "backends": backends, "conc": conc_params}, open(inpath, "w"))
+        json.dump({"graphs": graphs, "backends": backends, "conc": conc_params, "pairs": list(pair_cases)}, open(inpath, "w"))
         outpath = os.path.join(c.work, "mempool_out_%s.json" % tag)
         env = {"VERIF_IN": inpath, "VERIF_OUT": outpath, "VERIF_TRACE": rawtrace, "VERIF_SEED": c.seed, "VERIF_TIER": c.tier,
                "ARGLIB_LEVEL": "panic"}
@@ -273,13 +494,23 @@ def run(c):
             report_races(c, output)
         if rc != 0 and not r.get("violations") and not raced:
             raise vlib.Infra("harness failed:\n" + output[-3000:])
+        if pair_cases and not r.get("violations"):
+            # a pair whose goroutines could not be confirmed queued at the pool lock is skipped by the harness, never judged;
+            # more than a small fraction of them means the gate does not work here: no verdict
+            ex = r.get("extra") or {}
+            judged, skipped = int(ex.get("pairs_judged", 0)), int(ex.get("pairs_skipped", 0))
+            if judged + skipped != len(pair_cases):
+                raise vlib.Infra("pair schedules: %d given, %d judged + %d skipped" % (len(pair_cases), judged, skipped))
+            if skipped > max(20, len(pair_cases) // 200):
+                raise vlib.Infra("pair schedules: %d of %d pairs skipped (gate not confirmed): %s" % (
+                    skipped, len(pair_cases), "; ".join(n for n in r.get("notes") or [] if n.startswith("pair"))[:1500]))
         return r
 
     if quick:
-        r = harness("all", [g1, g2], conc, False)
+        r = harness("all", [g1, g2], conc, False, pairs)
     else:
-        # the replay of the graphs without, the concurrent runs with the race detector
-        r = harness("seq", [g1, g2], dict(conc, runs=0), False)
+        # the replay of the graphs and the pair schedules without, the randomized concurrent runs with the race detector
+        r = harness("seq", [g1, g2], dict(conc, runs=0), False, pairs)
         if not r.get("violations"):
             r = harness("conc", [], conc, True)
     c.exhaustive = True
